@@ -249,6 +249,21 @@ func parent(k string) {
 						if r.I != next {
 							die("worker replied for %d, expected %d", r.I, next)
 						}
+						if r.Bad && !flagged[r.I] && !*noConf {
+							// second opinion: fresh process, 4x budget, 4x cap
+							c := runWorker(k, r.I, r.I+1, offs[r.I], 4**budgetMs, 4**capMB, 4**budgetMs, 4**capMB)
+							mu.Lock()
+							if len(c) == 1 && c[0].Bad {
+								stats.Confirmed++
+								r = c[0]
+							} else if len(c) == 1 {
+								stats.Flaky++
+								r = c[0]
+							} else {
+								stats.Died++
+							}
+							mu.Unlock()
+						}
 						row := r.R
 						if r.Chg {
 							mu.Lock()
@@ -272,24 +287,9 @@ func parent(k string) {
 							}
 							mu.Unlock()
 						}
-						if r.Fine {
+						if r.Fine || len(row) == 0 || string(row) == "null" {
 							next++
 							continue
-						}
-						if r.Bad && !flagged[r.I] && !*noConf {
-							// second opinion: fresh process, 4x budget, 4x cap
-							c := runWorker(k, r.I, r.I+1, offs[r.I], 4**budgetMs, 4**capMB, 4**budgetMs, 4**capMB)
-							mu.Lock()
-							if len(c) == 1 && c[0].Bad {
-								stats.Confirmed++
-								row = c[0].R
-							} else if len(c) == 1 {
-								stats.Flaky++
-								row = c[0].R
-							} else {
-								stats.Died++
-							}
-							mu.Unlock()
 						}
 						rows[r.I] = row
 						next++
